@@ -210,12 +210,37 @@ def _guard_hmc(fn, *a, **k):
         raise
 
 
+def _budgeted(n_steps, fn):
+    """Run a stepping operation under an evaluation budget (50k + 5k per requested
+    step); exceeding it raises ctx.Runaway instead of hanging the harness."""
+    c = rctx.get()
+    c.eval_budget = 50_000 + 5_000 * int(n_steps)
+    try:
+        return fn()
+    finally:
+        c.eval_budget = None
+
+
 def op_step(h):
-    lib_call("take_step", _guard_hmc, h.chain.take_step)
+    _budgeted(1, lambda: lib_call("take_step", _guard_hmc, h.chain.take_step))
 
 
 def op_advance(h, m):
-    lib_call("advance(%d)" % m, _guard_hmc, h.chain.advance, m)
+    per = h.n_walkers if h.is_ensemble else 1
+    _budgeted(m * per, lambda: lib_call("advance(%d)" % m, _guard_hmc, h.chain.advance, m))
+
+
+def runaway_violation(h, op, exc):
+    """Classify an operation that never completed."""
+    cause = "unknown"
+    try:
+        sig = [float(p.sigma) for p in getattr(h.chain, "params", [])]
+        if sig and not all(np.isfinite(sig)):
+            cause = "proposal_width_overflow"
+    except Exception:  # noqa
+        pass
+    return dict(invariant="op.runaway", key=dict(cause=cause, sampler=h.kind),
+                detail="%s: %r did not complete within its evaluation budget (%s); cause: %s" % (h.kind, op, exc, cause))
 
 
 def op_exchange(h, position, L):
